@@ -1,0 +1,62 @@
+//go:build verif
+
+// Verification hooks (build tag verif) for C14, store side with real shards: an EngineImpl put together the way the
+// package's own tests do, so that an external harness can use the exported CreateDBPT / CreateShard / DeleteShard /
+// UpdateShardDurationInfo / ExpiredShards / Close on disk. No behaviour of its own.
+package engine
+
+import (
+	"time"
+
+	"github.com/influxdata/influxdb/pkg/limiter"
+	"github.com/openGemini/openGemini/lib/cpu"
+	"github.com/openGemini/openGemini/lib/errno"
+	"github.com/openGemini/openGemini/lib/interruptsignal"
+	"github.com/openGemini/openGemini/lib/logger"
+	"github.com/openGemini/openGemini/lib/metaclient"
+	stat "github.com/openGemini/openGemini/lib/statisticsPusher/statistics"
+	"go.uber.org/zap"
+)
+
+// VerifNewStoreEngine returns an engine with data and wal under dir and the given meta client; no partitions yet.
+func VerifNewStoreEngine(dir string, client metaclient.MetaClient) *EngineImpl {
+	e := &EngineImpl{
+		closed:               interruptsignal.NewInterruptSignal(),
+		dataPath:             dir,
+		walPath:              dir,
+		DBPartitions:         make(map[string]map[uint32]*DBPTInfo, 8),
+		droppingDB:           make(map[string]string),
+		droppingRP:           make(map[string]string),
+		droppingMst:          make(map[string]string),
+		migratingDbPT:        make(map[string]map[uint32]struct{}),
+		clearRepColdShardMap: make(map[string]struct{}),
+		clearRepColdIndexMap: make(map[string]struct{}),
+	}
+	e.log = logger.NewLogger(errno.ModuleUnknown).SetZapLogger(zap.NewNop())
+	e.engOpt.ShardMutableSizeLimit = 30 * 1024 * 1024
+	e.engOpt.NodeMutableSizeLimit = 1e9
+	e.engOpt.MaxWriteHangTime = time.Second
+	e.metaClient = client
+	loadCtx := &metaclient.LoadCtx{LoadCh: make(chan *metaclient.DBPTCtx, 64)}
+	go func() {
+		for range loadCtx.LoadCh {
+		}
+	}()
+	e.loadCtx = loadCtx
+	if openShardsLimit == nil {
+		openShardsLimit = limiter.NewFixed(cpu.GetCpuNum())
+	}
+	if stat.StoreTaskInstance == nil {
+		stat.StoreTaskInstance = stat.NewStoreTaskDuration(false)
+	}
+	return e
+}
+
+// VerifShardEnd reports the end time an installed shard holds.
+func (e *EngineImpl) VerifShardEnd(db string, pt uint32, id uint64) (time.Time, bool) {
+	sh, ok := e.DBPartitions[db][pt].shards[id]
+	if !ok {
+		return time.Time{}, false
+	}
+	return sh.GetEndTime(), true
+}
